@@ -27,6 +27,7 @@ package wal
 //@   ensures [nothing-left-is-an-error] old(avail(r)) == 0 ==> result3 != nil
 //@   ensures [success-consumes-one-record] result3 == nil ==> old(avail(r)) >= uint64(result2) + 8 && avail(r) == old(avail(r)) - uint64(result2) - 8 && result2 >= 1 && len(result1) == int(result2) - 1
 //@   exit [checksum-gate] result3 == nil ==> crc32c(buf) == expected && len(buf) == int(result2)
+//@   exit [bad-checksum-only-on-mismatch] result3 == kv.ErrBadChecksum ==> crc32c(buf) != expected
 //@   exit [returns-checksummed-bytes] result3 == nil ==> uint8(result) == buf[0] && (forall i int :: 0 <= i && i < len(result1) ==> result1[i] == buf[i+1])
 //@   modifies avail(r), ghost(kv.hashed), ghost(kv.hashWrites)
 
